@@ -3,6 +3,7 @@
 package server
 
 import (
+	"encoding/base64"
 	"fmt"
 	"math/rand"
 	"strings"
@@ -42,6 +43,8 @@ type c03World struct {
 	clients []int64          // known client ids
 	secret  map[int64]string // harness-held secrets
 	expired map[int64]bool
+	undec   map[int64]bool // stored secret cannot be decrypted (corrupted record / master key rotated): no response can be correct
+	rotated int
 	conns   []*c03Conn
 	all     map[string]*c03Conn // every connection ever opened in this world, by connID
 	banned  map[string]bool
@@ -50,14 +53,45 @@ type c03World struct {
 	trace   []string
 }
 
-func c03NewWorld(t *testing.T, run *vk.Run) *c03World {
+func c03NewWorld(t *testing.T, run *vk.Run) *c03World { return c03NewWorldV(t, run, 0) }
+
+// c03Corrupt returns an undecryptable variant of a stored (base64 AES-GCM) secret.
+func c03Corrupt(enc string, variant int) string {
+	raw, _ := base64.StdEncoding.DecodeString(enc)
+	switch variant % 6 {
+	case 0: // one byte of the ciphertext flipped
+		if len(raw) > 20 {
+			raw[len(raw)/2] ^= 0x41
+		}
+		return base64.StdEncoding.EncodeToString(raw)
+	case 1: // truncated inside the GCM tag
+		if len(raw) > 5 {
+			raw = raw[:len(raw)-5]
+		}
+		return base64.StdEncoding.EncodeToString(raw)
+	case 2: // shorter than a nonce
+		return base64.StdEncoding.EncodeToString([]byte("short"))
+	case 3: // valid base64 of garbage
+		return base64.StdEncoding.EncodeToString([]byte("0123456789abcdefghijklmnopqrstuvwxyzABCDEFGHIJKL"))
+	case 4: // not base64 at all
+		return "%%%-not-base64-%%%"
+	}
+	// nonce flipped
+	if len(raw) > 0 {
+		raw[0] ^= 0x01
+	}
+	return base64.StdEncoding.EncodeToString(raw)
+}
+
+// c03NewWorldV: variant selects how the stored secret of the "corrupted" client is damaged.
+func c03NewWorldV(t *testing.T, run *vk.Run, variant int) *c03World {
 	// large thresholds/durations: bans happen only through explicit events
 	bf := &security.BruteForceConfig{MaxFailures: 1000, TimeWindow: time.Hour, BanDuration: time.Hour, PermanentBanAt: 100000, CleanupInterval: time.Hour}
 	rl := &security.RateLimitConfig{Rate: 100000, Burst: 100000, TTL: time.Hour}
 	n := newMiniNode(t, miniOpts{BruteForce: bf, RateLimit: rl})
-	w := &c03World{n: n, secret: map[int64]string{}, expired: map[int64]bool{}, run: run, all: map[string]*c03Conn{}, banned: map[string]bool{}, black: map[string]bool{}}
+	w := &c03World{n: n, secret: map[int64]string{}, expired: map[int64]bool{}, undec: map[int64]bool{}, run: run, all: map[string]*c03Conn{}, banned: map[string]bool{}, black: map[string]bool{}}
 	// two provisioned clients A and B (secrets recorded from their first-connect replies)
-	for i := 0; i < 4; i++ {
+	for i := 0; i < 6; i++ {
 		c := n.NewClient("")
 		w.clients = append(w.clients, c.ClientID)
 		w.secret[c.ClientID] = c.Secret
@@ -90,7 +124,45 @@ func c03NewWorld(t *testing.T, run *vk.Run) *c03World {
 		t.Fatalf("c03: update config: %v", err)
 	}
 	w.expired[exp2] = true
+	// fifth client: stored secret corrupted (undecryptable); sixth: stored secret is the empty string
+	for i, enc := range []func(string) string{func(e string) string { return c03Corrupt(e, variant) }, func(string) string { return "" }} {
+		id := w.clients[4+i]
+		cfg, err := cr.GetConfig(id)
+		if err != nil {
+			t.Fatalf("c03: get config: %v", err)
+		}
+		if _, derr := n.SKM.Decrypt(cfg.SecretKeyEncrypted); derr != nil {
+			t.Fatalf("c03: freshly issued secret not decryptable: %v", derr)
+		}
+		cfg.SecretKeyEncrypted = enc(cfg.SecretKeyEncrypted)
+		if _, derr := n.SKM.Decrypt(cfg.SecretKeyEncrypted); derr == nil {
+			t.Fatalf("c03: corrupted secret (variant %d) still decrypts", variant)
+		}
+		if err := cr.UpdateConfig(cfg); err != nil {
+			t.Fatalf("c03: update config: %v", err)
+		}
+		w.undec[id] = true
+	}
 	return w
+}
+
+// rotateMasterKey models a server restart with a ROTATED master key over the
+// existing client records: every secret stored so far becomes undecryptable, so no
+// response for those clients can be "correct" any more.
+func (w *c03World) rotateMasterKey() {
+	w.rotated++
+	key := base64.StdEncoding.EncodeToString([]byte(fmt.Sprintf("rotated-master-key-%013d", w.rotated)))
+	skm, err := security.NewSecretKeyManager(&security.SecretKeyConfig{MasterKey: key})
+	if err != nil {
+		w.n.t.Fatalf("c03: rotated secret key manager: %v", err)
+	}
+	w.n.SKM = skm
+	w.n.Auth.secretKeyMgr = skm
+	w.n.CC.SetSecretKeyManager(skm)
+	for _, id := range w.clients {
+		w.undec[id] = true
+	}
+	w.trace = append(w.trace, "rotate-master-key")
 }
 
 func (w *c03World) open(addr string) *c03Conn {
@@ -196,7 +268,7 @@ func (w *c03World) step(cc *c03Conn, kind string, id int64, ctype string) {
 		switch kind {
 		case "P2valid":
 			resp = HMACResp(sec, cc.challenge)
-			if cc.challenge != "" && !cc.accepted[cc.challenge] && sec != "" && !w.expired[id] && !blocked {
+			if cc.challenge != "" && !cc.accepted[cc.challenge] && sec != "" && !w.expired[id] && !w.undec[id] && !blocked {
 				entitling = id
 			}
 		case "P2stale":
@@ -232,6 +304,12 @@ func (w *c03World) step(cc *c03Conn, kind string, id int64, ctype string) {
 			resp = HMACResp("", cc.challenge)
 		}
 		usedChal := cc.challenge
+		if w.undec[id] {
+			w.run.Count("p2_for_client_with_undecryptable_secret", 1)
+			if kind == "P2empty-hmac" && cc.challenge != "" {
+				w.run.Count("p2_emptykey_hmac_of_pending_challenge_for_undecryptable_secret", 1)
+			}
+		}
 		r, _ := cc.c.Phase2(id, resp, ctype)
 		if r != nil && r.Success {
 			respOK = true
@@ -338,6 +416,9 @@ func (w *c03World) idName(id int64) string {
 			if w.expired[id] {
 				return "expired"
 			}
+			if w.undec[id] {
+				return fmt.Sprintf("undecryptable%d", i)
+			}
 			return fmt.Sprintf("c%d", i)
 		}
 	}
@@ -359,7 +440,7 @@ func (w *c03World) close() { w.n.Close() }
 
 type c03Msg struct {
 	kind  string
-	idSel int // 0=A 1=B 2=expired 3=unknown 4=expired user-bound client
+	idSel int // 0=A 1=B 2=expired 3=unknown 4=expired user-bound client 5=corrupted stored secret 6=empty stored secret
 	ctype string
 }
 
@@ -376,6 +457,8 @@ func c03Alphabet() []c03Msg {
 			}
 		}
 		out = append(out, c03Msg{"P2valid", 2, ct}, c03Msg{"P2valid", 3, ct}, c03Msg{"P1", 4, ct}, c03Msg{"P2valid", 4, ct})
+		// clients whose stored secret cannot be decrypted: nothing may authenticate them
+		out = append(out, c03Msg{"P1", 5, ct}, c03Msg{"P2empty-hmac", 5, ct}, c03Msg{"P2valid", 5, ct}, c03Msg{"P2empty-hmac", 6, ct})
 	}
 	return out
 }
@@ -386,6 +469,10 @@ func (w *c03World) idOf(sel int) int64 {
 		return w.clients[sel]
 	case 4:
 		return w.clients[3]
+	case 5:
+		return w.clients[4]
+	case 6:
+		return w.clients[5]
 	}
 	return 987654321
 }
@@ -399,7 +486,7 @@ func TestVerifC03Exhaustive(t *testing.T) {
 	defer run.Finish()
 	alpha := c03Alphabet()
 	depth := run.Pick(2, 3)
-	run.Rule(fmt.Sprintf("all handshake message sequences up to depth %d on one connection over an alphabet of %d messages (FC, P1 x {A,B,expired,unknown}, P2 x {valid,stale,foreign-key,replay,garbage,empty-key-hmac} x {A,B}, P2valid for expired/unknown; each as control and tunnel type), each preceded by the prefix P1(A) or nothing; plus all 2-connection interleavings of depth-2 sequences from a reduced alphabet; distinct = message-kind sequence; non-trivial = contains at least one P2", len(alpha)))
+	run.Rule(fmt.Sprintf("all handshake message sequences up to depth %d on one connection over an alphabet of %d messages (FC, P1 x {A,B,expired,unknown}, P2 x {valid,stale,foreign-key,replay,garbage,empty-key-hmac} x {A,B}, P2valid for expired/unknown; P1, P2 valid/empty-key-hmac for a client whose stored secret is corrupted, P2 empty-key-hmac for a client whose stored secret is empty; each as control and tunnel type), each preceded by the prefix P1(A) or nothing; plus all 2-connection interleavings of depth-2 sequences from a reduced alphabet; distinct = message-kind sequence; non-trivial = contains at least one P2", len(alpha)))
 	w := c03NewWorld(t, run)
 	defer w.close()
 	total := 0
@@ -493,17 +580,18 @@ func TestVerifC03Exhaustive(t *testing.T) {
 	run.Floor("p2_foreign", 1)
 	run.Floor("p2_replay", 1)
 	run.Floor("fc_ok", 1)
+	run.Floor("p2_emptykey_hmac_of_pending_challenge_for_undecryptable_secret", 10)
 }
 
 func TestVerifC03Random(t *testing.T) {
 	run := vk.Start(t, "C03", "random")
 	defer run.Finish()
-	run.Rule("seeded random sequences of 20-60 handshake messages over 3 connections from 3 addresses, interleaved with ban/unban, blacklist/unblacklist and reconnect events; distinct = (message kind, identity class, connection type, blocked?) 3-grams")
+	run.Rule("seeded random sequences of 20-60 handshake messages over 3 connections from 3 addresses, interleaved with ban/unban, blacklist/unblacklist, reconnect, address-list restart and (rarely) master-key rotation events; per world one of 6 corruption variants of a stored secret (byte flip, truncation, too short, base64 garbage, not base64, nonce flip) plus an empty stored secret; distinct = (message kind, identity class, connection type, blocked?) 3-grams")
 	r := run.Rand("seq")
 	alpha := c03Alphabet()
 	nseq := run.Pick(150, 4000)
 	for s := 0; s < nseq; s++ {
-		w := c03NewWorld(t, run)
+		w := c03NewWorldV(t, run, r.Intn(6))
 		addrs := []string{"10.9.0.1:1000", "10.9.0.2:1000", "10.9.0.3:1000"}
 		conns := []*c03Conn{w.open(addrs[0]), w.open(addrs[1]), w.open(addrs[r.Intn(3)])}
 		n := 20 + r.Intn(41)
@@ -512,6 +600,12 @@ func TestVerifC03Random(t *testing.T) {
 		for i := 0; i < n; i++ {
 			ci := r.Intn(len(conns))
 			cc := conns[ci]
+			if r.Intn(50) == 0 {
+				w.rotateMasterKey()
+				run.Count("master_key_rotations", 1)
+				run.Eval(1)
+				continue
+			}
 			switch r.Intn(15) {
 			case 0:
 				w.ban(cc.ip)
@@ -545,6 +639,10 @@ func TestVerifC03Random(t *testing.T) {
 				if r.Intn(4) == 0 {
 					m = c03Msg{"P1", r.Intn(2), "control"}
 				}
+				if cc.challenge != "" && r.Intn(8) == 0 {
+					// what a peer knowing only a client id can compute
+					m = c03Msg{"P2empty-hmac", []int{0, 1, 5, 6}[r.Intn(4)], []string{"control", "tunnel"}[r.Intn(2)]}
+				}
 				blocked := w.blocked(cc.ip)
 				w.apply(cc, m)
 				for j := range conns {
@@ -574,6 +672,8 @@ func TestVerifC03Random(t *testing.T) {
 	run.Floor("p2_accepted", 5)
 	run.Floor("ban_events", 5)
 	run.Floor("messages_while_blocked", 5)
+	run.Floor("master_key_rotations", 5)
+	run.Floor("p2_emptykey_hmac_of_pending_challenge_for_undecryptable_secret", 10)
 }
 
 var _ = rand.Int
